@@ -1,4 +1,5 @@
 import NirVerif.Properties.C08
+import NirVerif.Generated.WorkListShape
 import NirVerif.Properties.C10
 
 /-! # C10 (continued) — a second inference changes nothing, on every consistent graph
@@ -86,5 +87,25 @@ theorem idempotent_consistent (g : Node) (τ : String → List Int × List Int)
       rw [hτa] at hMa
       rw [hτb, ← hc] at hMb
       exact stepNode_settled na nb _ _ _ hMa.1 hMb.1 hMb.2
+
+/-! ## the skeleton of the work-list, as the source states it now (translator item T14)
+
+`Model.workList` / `initialStack` / `initialSeen` / `pushed` model this skeleton: the list is seeded with the edges that
+leave Input nodes, `seen` starts as their sources, every round pops the **last** entry, adds the processed target to `seen`
+and appends the target's outgoing edges to nodes not yet seen.  The translator accepts `_forward_type_inference` only if
+its first two statements, the loop head, the first statement of the loop body and its last two statements have exactly
+that form and nothing else in the body touches the list or the set; it refuses (and the tie breaks) otherwise.  What it
+emits is the pop discipline. -/
+theorem worklist_generated :
+    Generated.workListPopsLast = true ∧ Generated.workListSeedsFromInputEdges = true ∧
+    Generated.workListPushesUnseenSuccessors = true := by
+  decide
+
+/-- the model pops the entry a LIFO `pop()` returns: with the stack kept reversed, the head -/
+theorem workList_pops_head {σ ε : Type} (edges : List Edge) (step : σ → String → String → σ × Option ε)
+    (st : σ) (pre post : String) (hm : (pre, post) ∈ edges) (rest : List {e : Edge // e ∈ edges}) (seen : List String) (e : ε)
+    (st' : σ) (h : step st pre post = (st', some e)) :
+    workList edges step st (⟨(pre, post), hm⟩ :: rest) seen = (st', seen, some e) := by
+  rw [workList, h]
 
 end NirVerif.C10
